@@ -87,6 +87,11 @@ def validated_ok(f):
 
 
 def run(ctx):
+    _run(ctx)
+    update_order_rule(ctx)
+
+
+def _run(ctx):
     db = ctx.db
     ctx.explanation = (
         "Decides the structural skeleton: who may write git references during a fetch; what is applied is the pending-tips map; "
@@ -460,3 +465,42 @@ def _cycle_without(g, hdr, avoid_blocks, avoid_edges):
     ae = set(avoid_edges)
     r = _reach_from_succ(g, g.fn, [hdr], avoid=set(avoid_blocks), avoid_edges=ae)
     return hdr in r
+
+
+def update_order_rule(ctx):
+    """The per-remote list of pending updates (`FetchState::tips`) is accumulated in stage order and applied to the real
+    refdb in that order, so the update of a *later* stage — the data refs derived from the verified signed refs — is what
+    a reference ends up pointing at.  The list may therefore only grow at its end."""
+    db = ctx.db
+    ua = db.one(r"^radicle_fetch::state::FetchState::update_all$")
+    if ua is None:
+        ctx.violated("anchor:update_all", "FetchState::update_all not found (anchor missing)")
+        return
+    GROW = re.compile(r"^alloc::vec::Vec::(append|push|extend|extend_from_slice|extend_from_within)$|Extend<.*>::extend$")
+    ent = [(bb, t) for bb, t, c in db.calls(ua) if (c.get("n") or "").endswith("BTreeMap::entry") and "tips" in nshow(expr_operand(ua, t[2][0]))]
+    mods = [(bb, t) for bb, t, c in db.calls(ua) if re.search(r"Entry::(and_modify)$", c.get("n") or "")]
+    if not ent or not mods:
+        ctx.ob("order:update_all:append", "inconclusive", "the accumulation of FetchState::tips is not written as entry(..).and_modify(..) any more", rules.where(ua), fn=ua)
+        return
+    ok = True
+    why = []
+    n = 0
+    for bb, t in mods:
+        clo = peel(expr_operand(ua, t[2][1]))
+        if not (clo[0] == "agg" and isinstance(clo[1], dict) and clo[1].get("closure")):
+            ok = False
+            why.append("and_modify argument is not a closure")
+            continue
+        for cf in flow.closure_family(db, ua, clo[1]["closure"]):
+            for b2, t2, c2 in db.calls(cf):
+                nm = c2.get("n") or c2.get("dn") or ""
+                n += 1
+                recv = nshow(peel(expr_operand(cf, t2[2][0]))) if t2[2] else ""
+                if GROW.search(nm) and re.match(r"^\*?arg2$", recv):
+                    continue
+                ok = False
+                why.append("%s on %s" % (cfg.short(nm), recv))
+    ctx.check("order:update_all:append", ok and n >= 1,
+              "updates of a later fetch stage are appended after those of earlier stages for the same remote (the list only grows at its end); "
+              "otherwise the advertised, unverified tip recorded by an earlier stage is written last and overrides the signed one%s" % (
+                  (": " + "; ".join(why[:3])) if why else ""), rules.where(ua, mods[0][0]), fn=ua)
